@@ -52,6 +52,8 @@ fn number(rng: &mut Rng) -> u128 {
         1 => 1,
         2 => *rng.pick(&[u32::MAX as u128 - 1, u32::MAX as u128, u32::MAX as u128 + 1, 1u128 << 40, (1u128 << 40) - 1]),
         3 => rng.below(1 << 20) as u128,
+        // values tools use as "whole method" / "no line" markers and narrow-integer limits
+        4 => *rng.pick(&[65_535u128, 65_536, 65_534, 255, 256, 32_767, 32_768, 2_147_483_647, 2_147_483_648]),
         _ => rng.below(200) as u128,
     }
 }
@@ -509,6 +511,40 @@ pub fn run(ctx: &Ctx, rep: &mut Reporter) {
             let m = Item::Method(gen_method(&mut rng, combo));
             rep.count(&format!("method_combo_range{}_class{}_orig{}", combo % 2, (combo / 2) % 2, (combo / 4) % 3), 1);
             let mut items = vec![m];
+            if case_idx % 16 == 3 {
+                // the catch-all prefixes R8 prints (0:65535, 1:65535, 0:0) with every shape of
+                // the original-line suffix
+                let c = rng.below(48);
+                let mut m = gen_method(&mut rng, c | 1);
+                let (s0, e0) = *rng.pick(&[(0u128, 65_535u128), (1, 65_535), (0, 0), (0, 65_536), (65_535, 0), (0, 1)]);
+                m.start = Some(s0);
+                m.end = Some(e0);
+                let n = 1 + rng.below(40) as u128;
+                match rng.below(5) {
+                    0 => {
+                        m.ostart = Some(n);
+                        m.oend = None;
+                    }
+                    1 => {
+                        m.ostart = Some(n);
+                        m.oend = Some(n);
+                    }
+                    2 => {
+                        m.ostart = Some(0);
+                        m.oend = Some(0);
+                    }
+                    3 => {
+                        m.ostart = Some(n);
+                        m.oend = Some(n + 1);
+                    }
+                    _ => {
+                        m.ostart = None;
+                        m.oend = None;
+                    }
+                }
+                items.push(Item::Method(m));
+                rep.count("lines_with_a_catch_all_range_prefix", 1);
+            }
             for k in 0..4 {
                 items.push(gen_item(&mut rng, case_idx.wrapping_add(k)));
             }
